@@ -15,6 +15,8 @@ CLAIMED = {
          'Snapshot comparison on every case, success or failure, both decode modes, also in accessor mode without Set.', '6 C04'),
  'C05': ('TLA+ L2 models FilterProtoHist (heap of list cells persists across calls: TreeImmutable, CallIsPure) and Conc with one goroutine (ResultsPrivate, BufferPrivacy); TLC-enumerated histories (Gen_History: one parsed function x sequences of call/scribble/unrelated over documents that flip filter outcomes and cross slice-growth boundaries) replayed on ONE real parsed function',
          'Every call compared with the specification response and with a fresh Retrieve; every earlier result slice re-read after every later operation; all histories of <= 3 operations x 22 kill-query functions x 7 documents (quick).', '6 C05'),
+ 'C06': ('TLA+ Conc (goroutines x critical sections: mutex, pool get/put, tree access) model-checked for MutualExclusion / BufferPrivacy / ResultsPrivate / NoRace / termination over all interleavings of 2-3 goroutines; Sched.tla (Conc at the granularity of recorded hook events) generates release schedules that the gate scheduler forces on the real library (hooks, build tag verif); free-running goroutines under the Go race detector with results compared to sequential results; recorded hook traces validated by Trace_Conc',
+         'Interleavings at critical-section granularity are enumerated/sampled by TLC and forced; inside a section the race detector is relied upon; schedules of the Go scheduler are sampled, not enumerated.', '6 C06'),
  'C07': ('TLA+ KeyLess order (lemma: UTF-8 byte order = code point order) over all 2..5-key subsets of a pool separating byte/UTF-16/length orders (6..12 keys simulated); each case evaluated 32 times on 4 independently built maps interleaved with pool-recycling decoys',
          'Every evaluation must return the specification sequence; >= 64 evaluations per key-set size are counted in the evidence.', '6 C07'),
  'C08': ('TLA+ law Compose model-checked on Select; the same law checked oracle-free on the real library (three retrievals per split, union and recursive-descent corollaries)',
@@ -43,7 +45,6 @@ CLAIMED = {
          'All one-step paths x all types, two-step paths x six representative types (quick).', '6 C20'),
 }
 PENDING = {
- 'C06': 'schedule family (Conc.tla, hooks) under construction in this session',
 }
 NOTE = 'TLC and the TLA+ modules in /verif/spec are trusted; the Go harness converts model values; bounded scope.'
 
